@@ -549,6 +549,6 @@ pub fn c16(tier: Tier) -> PropSpec {
             "'eventually' is bounded polling (40 s); a slot still empty while the task is listed as running is INCONCLUSIVE (exit 2), a slot empty after the task ended is a violation",
         ],
         exhaustive: false,
-        parts: vec![Part::with_shrink("problems", tier.pick(250, 3000), 60, web_case, c16_check)],
+        parts: vec![Part::with_shrink("problems", tier.pick(1200, 12000), 60, web_case, c16_check)],
     }
 }
